@@ -10,7 +10,8 @@ os.makedirs(d)
 for f in ('patch.diff', 'demo.diff', 'notes.md'):
     shutil.copy(f'{src}/{f}', f'{d}/{f}')
 SRC = {'2': 'independent sub-agent (second round, asked to avoid the most obvious sites) given only the property text and a scratch worktree',
-       '3': 'independent sub-agent (third round: asked for one change needing a non-default option or rare variant, one needing an interaction with another feature, one boundary / capacity / ordering detail, none at a main comparison or dispatch) given only the property text and a scratch worktree'}[rnd]
+       '3': 'independent sub-agent (third round: asked for one change needing a non-default option or rare variant, one needing an interaction with another feature, one boundary / capacity / ordering detail, none at a main comparison or dispatch) given only the property text and a scratch worktree',
+       '4': 'independent sub-agent (fourth round: asked for one change made of two cooperating edits that each look harmless alone, one needing a multi-step history of four or more operations with state carried across, one in a clean-up / cancellation / expiry / eviction / error path; none at a main comparison or dispatch) given only the property text and a scratch worktree'}[rnd]
 meta = {"property": pid, "breaks": pid, "source": SRC, "needs_to_manifest": needs,
         "confirmed": {"how": "tools/confirm_mutant.sh in a scratch worktree: cargo test --workspace --no-fail-fast --offline", "patch_only_suite": "PASS", "patch_plus_demo": "demo FAILS", "demo_only": "PASS"},
         "check_result": {"command": f"git -C /repo apply /verif/seeded/{pid}-m{n}/patch.diff && ./check {pid} quick; git -C /repo checkout -- .", "detected": det == '1', "note": note}}
